@@ -772,3 +772,80 @@ func RuleTP1(c *Ctx) {
 		sc.Undecided("chooser", "-", "unresolved anchor: the tag chooser with its three sources")
 	}
 }
+
+// RuleRV1: the validation stage looks at every response, not at a chosen one.
+func RuleRV1(c *Ctx) {
+	sc := c.Run.Begin("RV1", "in the validation stage every use of an interaction's Responses is a range over all of them (a check that indexes one response lets the others through unchecked)", 2)
+	defer sc.End()
+	pk := c.P.Pkg("core")
+	resp := c.Field("catalog", "HTTPInteraction", "Responses")
+	later := c.laterStages()
+	if pk == nil || resp == nil || len(later) == 0 {
+		sc.Undecided("anchors", "-", "unresolved anchor: HTTPInteraction.Responses / pipeline stages")
+		return
+	}
+	validate := later[len(later)-1]
+	info := pk.TypesInfo
+	n := 0
+	for _, f := range reachStatic(c.P, pk, []*types.Func{validate}) {
+		fd := c.P.Decl(f)
+		ranged := map[ast.Expr]bool{}
+		ast.Inspect(fd.Body, func(x ast.Node) bool {
+			if rs, ok := x.(*ast.RangeStmt); ok {
+				ranged[ast.Unparen(rs.X)] = true
+			}
+			return true
+		})
+		ast.Inspect(fd.Body, func(x ast.Node) bool {
+			sel, ok := x.(*ast.SelectorExpr)
+			if !ok || info.ObjectOf(sel.Sel) != resp {
+				return true
+			}
+			n++
+			key := fmt.Sprintf("%s#%d", c.P.DeclName(fd), n)
+			if ranged[sel] {
+				sc.Holds(key, c.P.Pos(sel.Pos()), "ranges over all responses")
+			} else {
+				sc.Violation(key, c.P.Pos(sel.Pos()), "the validation stage picks responses by index or length instead of ranging over all of them: a response without a body (or with a bad header schema) that is not the chosen one is accepted and serialised with a null body")
+			}
+			return true
+		})
+	}
+}
+
+// RuleTI1: Title() is info.title.
+func RuleTI1(c *Ctx) {
+	sc := c.Run.Begin("TI1", "the API's Title() getter returns the catalog's Info.Title field itself (or the empty string), untransformed", 1)
+	defer sc.End()
+	f := c.Func("kit", "JApi.Title")
+	title := c.Field("catalog", "Info", "Title")
+	fd := c.P.Decl(f)
+	if fd == nil || title == nil {
+		sc.Undecided("anchors", "-", "unresolved anchor: kit.JApi.Title / catalog.Info.Title")
+		return
+	}
+	info := c.P.PkgOfDecl(fd).TypesInfo
+	ok := true
+	n := 0
+	ast.Inspect(fd.Body, func(x ast.Node) bool {
+		ret, isRet := x.(*ast.ReturnStmt)
+		if !isRet || len(ret.Results) != 1 {
+			return true
+		}
+		n++
+		r := ast.Unparen(ret.Results[0])
+		if tv, has := info.Types[r]; has && tv.Value != nil && tv.Value.ExactString() == `""` {
+			return true
+		}
+		if sel, isSel := r.(*ast.SelectorExpr); isSel && info.ObjectOf(sel.Sel) == title {
+			return true
+		}
+		ok = false
+		return true
+	})
+	if ok && n > 0 {
+		sc.Holds("kit.JApi.Title", c.P.Pos(fd.Pos()), "returns Info.Title or \"\"")
+	} else {
+		sc.Violation("kit.JApi.Title", c.P.Pos(fd.Pos()), "Title() returns something other than the Info.Title field itself: it can differ from info.title in the JSON")
+	}
+}
